@@ -166,6 +166,19 @@ CLAIMS = {
              "arrived back at the sender; session ids and generated (idlocation) ids of 16 concurrently started sessions must "
              "be unique.",
         note="The executed sends are known from the generated documents; receptions are what content saw in _event."),
+    "C16": dict(
+        category="model_checking", design_ref="4/C16",
+        technique="TLC model checking of Delay.tla (timers, cancel, termination; safety + liveness) + TLC-simulated behaviours of the same spec replayed in the interpreter + trace validation with measured time intervals (TraceC16.tla)",
+        text="Delay.tla (two sessions with one timer each, delayed sends with and without id, <cancel>, data changes, termination, "
+             "late but never early timers) is model-checked for NoEarly, AtMostOnce, ValueAtExec, DueOrder, CancelPrevents, "
+             "TerminationDiscards, CancelIsolated and the liveness property ExactlyOnce. Behaviours simulated by TLC from the "
+             "same spec and directed scenarios are replayed against two real sessions (commands at 40 ms ticks, delays in "
+             "between, every delay written in a randomly chosen spelling: ms / s / m, fractions, delayexpr literal and variable); "
+             "marks before and after each <send>/<cancel> and at reception give time intervals, and TraceC16.tla (which also "
+             "computes the expected milliseconds from the spelling) rejects early, duplicate, lost, wrongly valued, "
+             "delivered-after-cancel, delivered-after-termination and out-of-due-order deliveries whenever the intervals make the case certain.",
+        note="Real time is measured, not controlled: cases inside the measurement uncertainty are not judged; a timer later than 150 ms counts as lost. "
+             "Thread interleavings of timer and session are not enumerated."),
     "C18": dict(
         category="fault_enumeration", design_ref="4/C18",
         technique="Rfsm.tla reader/writer protocol model-checked (CutIsError); every cut position and every single write fault of real images validated by TraceC18.tla",
